@@ -129,19 +129,21 @@ def run(ctx):
         do = rv["o"][rv["fields"].index("deps")]
         pv = tb.provenance(do, through_calls=True)
         cs = {norm_fn(c) for c in pv.callees()}
-        ok = AM + "::get_heads" in cs and any(c.endswith("to_vec") for c in cs) and bool(heads_param) and pv.depends_on_param(heads_param[0])
+        ok = AM + "::get_heads" in cs and any(c.endswith(("to_vec", "to_owned", "collect", "from_iter", "clone")) for c in cs) and bool(heads_param) and pv.depends_on_param(heads_param[0])
         ctx.ob("R9-meta", "transaction_args|deps = heads argument or current heads", ok, s["sp"], "sources %s" % sorted(c.split("::")[-1] for c in cs))
     # heads are a set: the dependencies copied from the caller's heads are deduplicated before the change is described
     ctx.rule("R9-dedup", "transaction_args: the dependency list taken from the caller's heads passes through dedup (after a sort) before TransactionArgs is built: a repeated head is one dependency")
     if heads_param:
-        copies = [(bi, t) for bi, t in tb.calls() if (norm_fn(t.get("fn")) or "").endswith("to_vec") and tb.provenance(t["args"][0], through_calls=False).depends_on_param(heads_param[0])]
-        dedups = [bi for bi, t in tb.calls() if (norm_fn(t.get("fn")) or "").split("::")[-1] in ("dedup", "dedup_by_key", "dedup_by")]
+        copies = [(bi, t) for bi, t in tb.calls() if (norm_fn(t.get("fn")) or "").endswith(("to_vec", "to_owned", "slice::iter")) and t.get("args") and tb.provenance(t["args"][0], through_calls=False).depends_on_param(heads_param[0])]
+        dedups = [bi for bi, t in tb.calls() if (norm_fn(t.get("fn")) or "").split("::")[-1] in ("dedup", "dedup_by_key", "dedup_by") or
+                  ((norm_fn(t.get("fn")) or "").endswith(("collect", "from_iter")) and ("BTreeSet" in (t.get("fnargs") or "") + " ".join(t.get("ga", [])) or "HashSet" in (t.get("fnargs") or "") + " ".join(t.get("ga", []))))]
+        set_form = any((norm_fn(t.get("fn")) or "").endswith(("collect", "from_iter")) for bi, t in tb.calls() if bi in dedups)
         sorts = [bi for bi, t in tb.calls() if (norm_fn(t.get("fn")) or "").split("::")[-1] in ("sort", "sort_unstable", "sort_by", "sort_unstable_by")]
         for k, (bi, t) in util.ordinal_keys(copies, lambda it: "transaction_args|deps copied from the heads argument"):
             nxt = t.get("target")
             reach = tb.reachable(start=nxt, removed_blocks=set(dedups)) if nxt is not None else set()
             built = [b2 for b2, blk in enumerate(tb.blocks) for st in blk["st"] if st["rv"]["k"] == "Agg" and (st["rv"].get("adt") or "").endswith("TransactionArgs")]
-            ok = bool(dedups) and not any(b2 in reach for b2 in built) and any(tb.can_reach(sb_, db_) for sb_ in sorts for db_ in dedups)
+            ok = bool(dedups) and not any(b2 in reach for b2 in built) and (set_form or any(tb.can_reach(sb_, db_) for sb_ in sorts for db_ in dedups))
             ctx.ob("R9-dedup", k, ok, t["sp"], "sorted and deduplicated on every path to the construction" if ok else
                    "the caller's heads become the change's dependencies verbatim: isolate(&[h, h]) writes the dependency twice (and hashes it into the change)")
     # isolated transactions depend on exactly the given heads: the current-heads branch is unreachable when heads are given
